@@ -308,13 +308,17 @@ def negative_cases(draw):
     pt = ec.mul(draw(gen.scalars_valid()), ec.G)
     x, y = pt
     if kind == "pk-wrong-len-for-prefix":
-        how = draw(st.sampled_from(["65-with-02", "33-with-04", "34", "64", "66", "32"]))
+        how = draw(st.sampled_from(["65-with-02", "33-with-04", "34", "64", "66", "32", "no-prefix-64", "no-prefix-64", "no-prefix-32"]))
         if how == "65-with-02":
             b = bytes([2 + (y & 1)]) + x.to_bytes(32, "big") + draw(st.sampled_from([y.to_bytes(32, "big"), bytes(32)]))
         elif how == "33-with-04":
             b = b"\x04" + x.to_bytes(32, "big")
         elif how == "34":
             b = ec.sec1_encode(pt, True) + b"\x00"
+        elif how == "no-prefix-64":  # the bare x || y other libraries hand out: a point's coordinates, but not SEC1
+            b = ec.sec1_encode(pt, False)[1:]
+        elif how == "no-prefix-32":
+            b = ec.sec1_encode(pt, True)[1:]
         elif how == "64":
             b = ec.sec1_encode(pt, False)[:-1]
         elif how == "66":
